@@ -14,7 +14,7 @@ def run(tier):
     n, draws, shards = (150, 4, 4) if tier == "quick" else (3000, 12, 16)
     cases, specs = [], {}
     for i in range(n):
-        ec = rgen_enum.gen_enum_case(g, i)
+        ec = rgen_enum.gen_enum_case(g, i, dict(permuted_into=True) if i % 15 == 11 else None)
         code, di, df, kinds = rgen_enum.render_case(ec, g, draws)
         ec.inputs = {"i": di, "f": df}
         cases.append(rt.Case(i, code, meta=ec, input_text=di))
@@ -49,7 +49,10 @@ def run(tier):
         probes_ok = len(pr) % 2 == 0 and pr[:len(pr) // 2] == pr[len(pr) // 2:]
         if e["got"] != e["want"] or not probes_ok:
             what = "panic" if e["got"].startswith("PANIC") and not e["want"].startswith("PANIC") else "value" if e["got"] != e["want"] else "wrong_default_evaluated"
-            ck.violation(f"wrong_{what}|enum|{key[0]}->{key[1]}|{kind}|{key[4]}", dict(input=ec.inputs["f" if fal else "i"], conversion=e["conv"], source=e["src"], got=e["got"], want=e["want"], probes=pr))
+            sig = f"wrong_{what}|enum|{key[0]}->{key[1]}|{kind}|{key[4]}"
+            if "permuted_into" in ec.flags and v is not None and v.permuted and not kind.startswith("from") and what == "value":
+                sig = "region|payload_index_permuted|wrong_value|into"
+            ck.violation(sig, dict(input=ec.inputs["f" if fal else "i"], conversion=e["conv"], source=e["src"], got=e["got"], want=e["want"], probes=pr))
         elif len(ck.samples) < 4 and v is not None and len(v.fields) >= 2 and e["draw"] == 0:
             ck.sample(dict(input=ec.inputs["f" if fal else "i"], conversion=e["conv"], source=e["src"], got=e["got"]))
     ck.extra["programs"] = n
